@@ -17,6 +17,51 @@ from ..extract import AnalysisBroken
 LEVEL = "other"
 
 
+def _error_code_sticky(db, chk, cfg, rule="ERRCODE.sticky"):
+    """A class whose *constructor* records an error in the member error_code_ (ClipperD: the precision, which cannot be changed
+    afterwards) must keep it for the life of the object: in a build without exceptions ErrorCode() is the only report of the rejected
+    argument.  So outside constructors the member is only ever or-ed into (`|=`, directly or through the reference handed to
+    CheckPrecisionRange / ScalePaths); a plain assignment in Clear(), Reset() or Execute() wipes the constructor's report."""
+    from ..astq import walk, kids, canon, where
+    def _u(x):
+        while x.get("kind") in ("ImplicitCastExpr", "ParenExpr") and kids(x):
+            x = kids(x)[0]
+        return x
+    owners = {q.split("::")[-1] for q, r in db.records.items() if any(fd.get("name") == "error_code_" for fd in r.fields)}
+    recorded = set()          # classes with a constructor that writes the member
+    for f in db.funcs:
+        if f.kind == "CXXConstructorDecl" and f.body is not None and not f.is_pattern:
+            if any(x.get("kind") == "MemberExpr" and x.get("name") == "error_code_" for x in walk(f.body)):
+                recorded.add(f.cls)
+    hier = set()
+    for c in recorded:
+        r = db.records.get(c)
+        bases = [b.split("::")[-1] for b in (r.bases if r else [])]
+        hier |= {c} | {b for b in bases if b in owners}
+    if not recorded:
+        raise AnalysisBroken("ERRCODE.sticky: no constructor records an error in error_code_ (configuration %s)" % cfg)
+    n = 0
+    for f in db.funcs:
+        if f.is_pattern or f.body is None or f.cls not in hier or f.kind in ("CXXConstructorDecl", "CXXDestructorDecl"):
+            continue
+        for x in walk(f.body):
+            if x.get("kind") in ("BinaryOperator", "CompoundAssignOperator") and str(x.get("opcode", "")).endswith("=") \
+                    and x.get("opcode") not in ("==", "!=", "<=", ">="):
+                lhs = _u(kids(x)[0])
+                if lhs.get("kind") == "MemberExpr" and lhs.get("name") == "error_code_":
+                    n += 1
+                    ok = x.get("opcode") == "|="
+                    chk.instance(rule, {"function": f.qual, "write": canon(x)[:60], "cfg": cfg}, ok=ok)
+                    if not ok:
+                        chk.violation(rule, f.qual, "error_code_",
+                                      "`%s` in %s overwrites error_code_, which the constructor of %s uses to record a rejected argument (a decimal "
+                                      "precision outside +-8): after this call ErrorCode() no longer reports it, and in a build without exceptions "
+                                      "nothing else does - the invalid argument is silently accepted" % (canon(x)[:60], f.qual, ", ".join(sorted(recorded))),
+                                      where(x), cfg=cfg)
+    chk.instance(rule, {"classes": sorted(hier), "constructor_records_error": sorted(recorded), "direct_writes_outside_constructors": n, "cfg": cfg})
+    return len(hier)
+
+
 def _success_flag(db, chk, cfg):
     """Execute's return value succeeded_ is re-armed (written) in every Execute before it is read, whatever happened to the
     object before (AddReuseableData sets it to false); the only `false` stored during execution is AddLocalMaxPoly's."""
@@ -48,6 +93,7 @@ def run(chk):
     chk.rule("R2.error-consumed", "[builds without exceptions] after a call that may set a local error code, no non-empty value is "
              "returned before `if (error_code) return <empty>`")
     chk.rule("R2.member-error-consumed", "[builds without exceptions] ClipperD::Execute consults error_code_ before producing output")
+    chk.rule("ERRCODE.sticky", "a class whose constructor records a rejected argument in error_code_ (ClipperD: the precision) never overwrites the member afterwards: outside constructors it is only or-ed into, so ErrorCode() still reports the argument after Clear / Reset / Execute")
     chk.rule("R3.doerror-paired", "[builds without exceptions] every DoError(c) is directly preceded by `<code> |= c`")
     chk.rule("R4.range-checked-scaling", "every call of a primitive that scales caller-supplied doubles into int64 geometry is covered "
              "by a comparison against min_coord/max_coord")
@@ -88,6 +134,7 @@ def run(chk):
             from ..extract import AnalysisBroken as _AB
             raise _AB("OUTPUT.reset: fewer than 8 output parameters on the Execute overloads (%s)" % cfg)
         _success_flag(db, chk, cfg)
+        _error_code_sticky(db, chk, cfg)
     n = len(cfgs)
     chk.floor("R1.validate-before-use", 22 * n)
     chk.floor("R4.range-checked-scaling", 10 * n)
